@@ -11,6 +11,9 @@ CLAIMED = {
  'C02': dict(design='4/C02', technique='TLA+ path/update tables of the manual (JaqSem Ev/Upd) checked with TLC incl. invariant getpath(path(p)) = p; vectors replayed; recorded runs validated by TLC',
    text='TLC enumerates all path expressions of the family up to the node bound x three input trees x twelve observation modes (path, getpath.path, path_value, |= with 0/1/2 outputs/error, =, +=, //=, del) and checks getpath(path(p)) = p on the specification; every state is replayed on the real code; random deeper path expressions x random trees are validated as traces.',
    note='same trusted base as C01; order of object keys after a deleting update is compared as a map (left open by the manual)'),
+ 'C03': dict(design='4/C03', technique='TLA+ definitional semantics with prefix-cutting stream operators, model-checked over producer/consumer programs with bombs by TLC; vectors replayed by pulling exactly the specified prefix from the real iterator',
+   text='TLC enumerates all small producer programs with bombs (error, build-time and pull-time divergence, infinite generators) under every prefix consumer, in value and in path mode; where the specification gives a definite prefix the real iterator is pulled exactly that far and must deliver it without error, hang or crash.',
+   note='input-consuming bombs are covered at CLI level (C17); hang detection by timeout; same trusted base as C01'),
 }
 
 checks = []
